@@ -3,6 +3,7 @@
 package verifsim
 
 import (
+	"net/url"
 	"fmt"
 	"regexp"
 	"sort"
@@ -58,6 +59,7 @@ type kmModel struct {
 	hookFails bool // the media hook of this run exits non-zero (the UI then shows a problem line)
 	hookSlow  bool // ... after a few seconds, so that keys can be pressed while it runs
 	spawned   bool // the last key started the hook
+	spawnLink string // ... for this link ("" = whichever of the item's pictures/media the program prefers)
 }
 
 func postItem(p *TPost) mItem   { return mItem{sig: p.Tok, post: p} }
@@ -117,9 +119,9 @@ func (m *kmModel) current() (mItem, bool) {
 // resolve: what opening a typed target or a link yields.
 func (m *kmModel) resolve(target string) *mPage {
 	tn := m.tn
-	if strings.HasPrefix(target, "@") {
+	if strings.HasPrefix(target, "@") || strings.HasPrefix(target, "!") {
 		for _, a := range tn.Actors {
-			if target == "@"+a.User+"@"+a.Host {
+			if target[1:] == a.User+"@"+a.Host {
 				return m.threadPage(actorItem(a))
 			}
 		}
@@ -209,6 +211,7 @@ func linksOf(it mItem) []string {
 func (m *kmModel) key(b byte) {
 	m.footer = ""
 	m.spawned = false
+	m.spawnLink = ""
 	switch m.mode {
 	case "command":
 		switch b {
@@ -278,6 +281,7 @@ func (m *kmModel) key(b byte) {
 				m.add(m.resolve(links[n-1]))
 			} else {
 				m.external()
+				m.spawnLink = links[n-1]
 			}
 		default:
 			// the keymap does not say what other keys do while a number is being typed
@@ -721,9 +725,14 @@ func scenC07(r *Run, judged bool) {
 			}
 			continue
 		}
+		execsBefore := len(u.Execs())
+		var wantSpawns []string
 		for ci, c := range act {
 			ki := u.Key(c)
 			m.key(c)
+			if m.spawned {
+				wantSpawns = append(wantSpawns, m.spawnLink)
+			}
 			if judged && m.hookSlow && m.spawned && ci < len(act)-1 && (act[ci+1] == ':' || (act[ci+1] >= '0' && act[ci+1] <= '9')) {
 				// the hook is still running: the user goes on typing (a command, a number) without
 				// waiting for it; when it ends (even with a failure) that input must not be disturbed
@@ -753,6 +762,32 @@ func scenC07(r *Run, judged bool) {
 				}
 			}
 		}
+		if judged && !m.lost {
+			// the media hook ran exactly as often as the keymap says for this action, and for the
+			// links chosen by number
+			recs := u.Execs()[execsBefore:]
+			if len(recs) != len(wantSpawns) {
+				viol("hook-runs-differ-from-keymap", fmt.Sprintf("action %q started the media hook %d times, the keymap says %d (keys so far %v)", act, len(recs), len(wantSpawns), typed))
+				return
+			}
+			for i, link := range wantSpawns {
+				if link == "" {
+					continue
+				}
+				found := string(recs[i].Stdin) == link
+				pu, perr := url.Parse(link)
+				for _, a := range recs[i].Args[1:] {
+					if a == link || (perr == nil && a == pu.String()) {
+						found = true
+					}
+				}
+				if !found {
+					viol("hook-opened-another-link", fmt.Sprintf("the number typed selects link %q, the hook was run as %q (keys so far %v)", link, recs[i].Args, typed))
+					return
+				}
+			}
+			r.S.Probe("hook_runs_agree_with_keymap")
+		}
 		if !compare(fmt.Sprintf("%q", act)) {
 			return
 		}
@@ -761,6 +796,13 @@ func scenC07(r *Run, judged bool) {
 		}
 	}
 	uiLiveness(r, u, true)
+	if judged {
+		if m.lost {
+			r.S.Probe("model_lost_run:" + m.why)
+		} else {
+			r.S.Probe("model_kept_to_the_end")
+		}
+	}
 	if len(m.pages) > 2 {
 		r.S.Probe("history_deeper_than_2")
 	}
@@ -786,6 +828,15 @@ func burstAction(act []byte) bool {
 // keymap leaves open.
 func (g *keyGen) nextJudged(m *kmModel) []byte {
 	t := g.r.W
+	if it, ok := m.current(); ok && m.mode == "normal" && !m.lost && len(linksOf(it)) >= 8 && t.Chance(1, 3) {
+		k := 8 + t.Draw(len(linksOf(it))-6)
+		return []byte(fmt.Sprintf([]string{"%d", "0%d", "0%d", "00%d"}[t.Draw(4)], k) + []string{".", "\r"}[t.Draw(2)])
+	}
+	if m.mode == "selection" && !m.lost {
+		// a number is being typed: finish it with one of the keys the keymap defines for that
+		// (what other keys do then is left open, and judged runs stay where the keymap speaks)
+		return []byte{[]byte{'.', '\r', 27, 127, '.', '\r'}[t.Draw(6)]}
+	}
 	switch t.Weighted(9, 7, 4, 2, 4, 3, 2, 4, 3, 1, 2, 1, 4, 3, 7) {
 	case 14:
 		// fast cursor keys (marker byte 0, never sent): see the session loop
@@ -828,6 +879,16 @@ func (g *keyGen) nextJudged(m *kmModel) []byte {
 	case 7:
 		// a number, then one of the keys the keymap defines for it
 		num := []string{"1", "2", "3", "4", "0", "9", "12", "00", "99999999999999999999", "007"}[t.Weighted(5, 4, 3, 2, 2, 1, 1, 1, 1, 1)]
+		if it, ok := m.current(); ok && t.Chance(1, 2) {
+			// a number the highlighted item really has (or just misses), also padded with zeros
+			if n := len(linksOf(it)); n > 0 {
+				k := 1 + t.Draw(n+1)
+				if n >= 8 && t.Chance(2, 3) {
+					k = 8 + t.Draw(n-6) // the two-digit end of a long list
+				}
+				num = fmt.Sprintf([]string{"%d", "0%d", "0%d", "00%d"}[t.Draw(4)], k)
+			}
+		}
 		end := []string{".", ".", "\r", "\x1b", "\x7f\x7f\x7f", "\x7f" + "1."}[t.Draw(6)]
 		if len(num) > 3 && strings.HasPrefix(end, "\x7f") {
 			end = "\x1b"
